@@ -16,6 +16,7 @@ CONTRACT_MODULES = ['classes', 'rfc_spec', 'c_crypto', 'c_message', 'c_encode', 
 TIMEOUT_MS = {'quick': 15000, 'thorough': 60000}
 
 _REPO = None
+_BASELINE_NAMES = set()
 
 
 def load_contracts():
@@ -23,7 +24,7 @@ def load_contracts():
     (files that extend contracts of other files come later in the alphabet: c_z*)"""
     names = sorted(f[:-3] for f in os.listdir(os.path.join(HERE, 'contracts'))
                    if f.endswith('.py') and f != '__init__.py')
-    first = [m for m in ('classes', 'rfc_spec') if m in names]
+    first = [m for m in ('classes', 'classes_b', 'rfc_spec') if m in names]
     order = first + [m for m in CONTRACT_MODULES if m in names and m not in first]
     order += [m for m in names if m not in order]
     for m in order:
@@ -80,6 +81,12 @@ def worker(task):
         entry_env = fv.ex.entry.env if fv.ex.entry else {}
         for ob in obs:
             r = discharge(ob, timeout_ms)
+            if r.status == 'unknown' and ob.name in _BASELINE_NAMES:
+                # an obligation that is discharged on the committed baseline came back undecided: retry
+                # with the thorough budget before it is reported as failed (guards against a slow machine)
+                r2 = discharge(ob, max(timeout_ms * 4, 60000))
+                r2.reason = (r2.reason or '') + ' (after extended retry)'
+                r = r2
             d = {'name': ob.name, 'props': list(ob.props or []), 'status': r.status, 'time_s': round(r.time_s, 4),
                  'backend': r.backend, 'reason': r.reason, 'trail': [list(map(str, t)) for t in ob.trail],
                  'ob_kind': ob.kind, 'func': fq, 'receiver': recv or fi.cls, 'func_kind': out['info']['func_kind'],
